@@ -356,12 +356,6 @@ Qed.
 
 (** * 3. MinHeap and compute_core *)
 
-(** Storage invariant of the heap built by [resize(n)]: both vectors have SIZE n, the logical size is at
-    most n, and every stored entry (live or stale) is itself a valid index. *)
-Definition hinv (n : nat) (h : cheap) : Prop :=
-  length (c_val h) = n /\ length (c_pos h) = n /\ c_size h <= n /\
-  Forall (fun v => v < n) (c_val h) /\ Forall (fun p => p < n) (c_pos h).
-
 Lemma Forall_repeat0 n : Forall (fun v => v < n) (repeat 0 n).
 Proof.
   destruct n as [|n]; [constructor|]. apply Forall_forall. intros x Hx.
@@ -993,4 +987,182 @@ Proof.
     with true by (vm_compute; reflexivity).
   destruct f as [|f]; [reflexivity|]. rewrite osc_S1.
   apply osc_loop_forever.
+Qed.
+
+(** * Summary statements in the [K_safe] / [K_terminates] form *)
+
+Lemma kok_not_oob {A} (x : kres A) : (exists r, x = KOk r) -> x <> OOB.
+Proof. intros [r ->]. discriminate. Qed.
+Lemma kok_not_fuel {A} (x : kres A) : (exists r, x = KOk r) -> x <> OutOfFuel.
+Proof. intros [r ->]. discriminate. Qed.
+
+Theorem count_triangles_safe_ok n indptr indices :
+  csr_pat_wf n indptr indices -> count_triangles_flat indptr indices <> OOB.
+Proof. intros H. apply kok_not_oob. exact (count_triangles_flat_ok n indptr indices H). Qed.
+
+Theorem count_triangles_terminates_ok n indptr indices :
+  csr_pat_wf n indptr indices -> count_triangles_flat indptr indices <> OutOfFuel.
+Proof. intros H. apply kok_not_fuel. exact (count_triangles_flat_ok n indptr indices H). Qed.
+
+Theorem count_local_triangles_safe_ok n indptr indices node :
+  csr_pat_wf n indptr indices -> node < n ->
+  count_local_triangles_flat node indptr indices <> OOB /\
+  count_local_triangles_flat node indptr indices <> OutOfFuel.
+Proof.
+  intros H Hn. pose proof (count_local_ok n indptr indices node H Hn) as E.
+  split; [apply kok_not_oob | apply kok_not_fuel]; exact E.
+Qed.
+
+Theorem vote_update_safe_all n indptr indices (data : list Q) labels index s :
+  csr_wf n indptr indices data -> length labels = n -> (forall i, In i index -> i < n) ->
+  vote_update repaired_kernel indptr indices data labels index <> VOOB s.
+Proof.
+  intros Hwf Hl Hi. destruct (vote_update_safe_ok n indptr indices data labels index Hwf Hl Hi)
+    as (l' & -> & _). discriminate.
+Qed.
+
+Theorem compute_core_safe_ok n indptr indices :
+  csr_pat_wf n indptr indices -> ccompute_core cheap_resize indptr indices <> OOB.
+Proof.
+  intros H. destruct (ccompute_core_ok n indptr indices H) as (l & -> & _). discriminate.
+Qed.
+
+Theorem compute_core_terminates_ok n indptr indices :
+  csr_pat_wf n indptr indices -> ccompute_core cheap_resize indptr indices <> OutOfFuel.
+Proof.
+  intros H. destruct (ccompute_core_ok n indptr indices H) as (l & -> & _). discriminate.
+Qed.
+
+Theorem diteration_safe_ok n indptr indices (data scores fluid : list Q) damping n_iter tol :
+  csr_wf n indptr indices data -> length scores = n -> length fluid = n ->
+  diteration indptr indices data scores fluid damping n_iter tol <> OOB.
+Proof.
+  intros H1 H2 H3.
+  destruct (diteration_ok n indptr indices data scores fluid damping n_iter tol H1 H2 H3)
+    as (st & s & -> & _). discriminate.
+Qed.
+
+(** * 7. optimize_core (Louvain): accesses in range *)
+
+Ltac step_rd d := rewrite (rd_ok _ _ d) by (rewrite ?set_nth_length; lia); cbn [kbind].
+Ltac step_wr := rewrite wr_ok by (rewrite ?set_nth_length; lia); cbn [kbind].
+
+Definition linv (n : nat) (st : lstate) : Prop :=
+  length (l_labels st) = n /\ Forall (fun l => l < n) (l_labels st) /\
+  length (l_ocw st) = n /\ length (l_icw st) = n /\ length (l_cw st) = n.
+
+Lemma lv_gather_ok n indptr indices (data : list Q) labels :
+  csr_wf n indptr indices data -> length labels = n -> Forall (fun l => l < n) labels ->
+  forall js lset cw, (forall k, In k js -> k < length indices) ->
+    Forall (fun l => l < n) lset -> length cw = n ->
+    exists lset' cw', lv_gather js indices data labels lset cw = KOk (lset', cw') /\
+                      Forall (fun l => l < n) lset' /\ length cw' = n.
+Proof.
+  intros [Hwf Hd] Hl HF. induction js as [|j t IH]; intros lset cw Hjs Hls Hcw; cbn [lv_gather].
+  - exists lset, cw. auto.
+  - assert (Hj : j < length indices) by (apply Hjs; left; reflexivity).
+    destruct (csr_rd_indices _ _ _ j Hwf Hj) as [Hr Hlt]. rewrite Hr. cbn [kbind].
+    destruct (rd_Forall _ labels (nth j indices 0) HF ltac:(lia)) as (lt & Hr2 & Hlt2).
+    rewrite Hr2. cbn [kbind].
+    step_rd 0%Q. step_rd 0%Q. step_wr.
+    apply IH.
+    + intros k Hk. apply Hjs. right. exact Hk.
+    + apply Forall_forall. intros u Hu. apply set_insert_In in Hu.
+      destruct Hu as [->|Hu]; [exact Hlt2|]. rewrite Forall_forall in Hls. apply Hls. exact Hu.
+    + rewrite set_nth_length. exact Hcw.
+Qed.
+
+Lemma lv_select_ok n res ow iw delta icw ocw :
+  length icw = n -> length ocw = n ->
+  forall ls cw dbest lbest, Forall (fun l => l < n) ls -> length cw = n -> lbest < n ->
+    exists db lb cw', lv_select ls res ow iw delta icw ocw cw dbest lbest = KOk (db, lb, cw') /\
+                      lb < n /\ length cw' = n.
+Proof.
+  intros Hi Ho. induction ls as [|lt t IH]; intros cw dbest lbest Hls Hcw Hlb; cbn [lv_select].
+  - exists dbest, lbest, cw. auto.
+  - apply Forall_cons_iff in Hls. destruct Hls as [Hlt Hls].
+    step_rd 0%Q. step_rd 0%Q. step_rd 0%Q. step_wr.
+    destruct (Qlt_le_dec dbest _); apply IH; auto; rewrite set_nth_length; exact Hcw.
+Qed.
+
+Lemma Forall_remove n x (l : list nat) :
+  Forall (fun u => u < n) l -> Forall (fun u => u < n) (remove Nat.eq_dec x l).
+Proof.
+  intros H. apply Forall_forall. intros u Hu. apply in_remove in Hu. destruct Hu as [Hu _].
+  rewrite Forall_forall in H. apply H. exact Hu.
+Qed.
+
+Lemma lv_node_ok n indptr indices (data ow_ iw_ sl_ : list Q) res i st :
+  csr_wf n indptr indices data -> length ow_ = n -> length iw_ = n -> length sl_ = n ->
+  i < n -> linv n st ->
+  exists st', lv_node indptr indices data ow_ iw_ sl_ res i st = KOk st' /\ linv n st'.
+Proof.
+  intros Hwf How Hiw Hsl Hi (HL & HF & HO & HI & HC). pose proof Hwf as [Hpat Hd].
+  unfold lv_node.
+  destruct (rd_Forall _ (l_labels st) i HF ltac:(lia)) as (label & Hr & Hlab). rewrite Hr. cbn [kbind].
+  rewrite (csr_rd_indptr _ _ _ i Hpat) by lia. cbn [kbind].
+  rewrite (csr_rd_indptr _ _ _ (S i) Hpat) by lia. cbn [kbind].
+  destruct (lv_gather_ok n indptr indices data (l_labels st) Hwf HL HF
+              (seq (ip indptr i) (ip indptr (S i) - ip indptr i)) [] (l_cw st))
+    as (lset0 & cw1 & Hg & Hls0 & Hcw1); auto.
+  { apply (row_range_lt n); auto. }
+  rewrite Hg. cbn [kbind fst snd].
+  pose proof (Forall_remove n label lset0 Hls0) as Hls.
+  match goal with |- exists st', (do st1 <- ?X ;; _) = _ /\ _ =>
+    assert (H1 : exists st1, X = KOk st1 /\ linv n st1) end.
+  { destruct (remove Nat.eq_dec label lset0) as [|l0 lrest] eqn:Erm.
+    - eexists. split; [reflexivity|]. unfold linv; cbn [l_labels l_ocw l_icw l_cw]. auto.
+    - step_rd 0%Q. step_rd 0%Q. step_rd 0%Q. step_rd 0%Q. step_rd 0%Q. step_rd 0%Q.
+      match goal with |- context [lv_select ?ls ?r ?o ?w ?d ?ic ?oc ?c ?db ?lb] =>
+        destruct (lv_select_ok n r o w d ic oc HI HO ls c db lb Hls Hcw1 Hlab)
+          as (db' & lb' & cw2 & Hs & Hlb' & Hcw2) end.
+      rewrite Hs. cbn [kbind fst snd].
+      destruct (negb (lb' =? label)).
+      + repeat first [step_rd 0%Q | step_wr].
+        eexists. split; [reflexivity|]. unfold linv; cbn [l_labels l_ocw l_icw l_cw].
+        rewrite !set_nth_length. repeat split; auto. apply Forall_set_nth; auto.
+      + eexists. split; [reflexivity|]. unfold linv; cbn [l_labels l_ocw l_icw l_cw]. auto. }
+  destruct H1 as (st1 & E1 & (HL1 & HF1 & HO1 & HI1 & HC1)). rewrite E1. cbn [kbind].
+  step_wr. eexists. split; [reflexivity|]. unfold linv; cbn [l_labels l_ocw l_icw l_cw].
+  rewrite set_nth_length. auto.
+Qed.
+
+Lemma lv_pass_ok n indptr indices (data ow_ iw_ sl_ : list Q) res :
+  csr_wf n indptr indices data -> length ow_ = n -> length iw_ = n -> length sl_ = n ->
+  forall nodes st, (forall i, In i nodes -> i < n) -> linv n st ->
+    exists st', lv_pass nodes indptr indices data ow_ iw_ sl_ res st = KOk st' /\ linv n st'.
+Proof.
+  intros Hwf How Hiw Hsl. induction nodes as [|i t IH]; intros st Hn Hinv; cbn [lv_pass].
+  - exists st. auto.
+  - destruct (lv_node_ok n indptr indices data ow_ iw_ sl_ res i st Hwf How Hiw Hsl
+                (Hn i (or_introl eq_refl)) Hinv) as (st1 & H1 & Hinv1).
+    rewrite H1. cbn [kbind]. apply IH; auto. intros i' Hi'. apply Hn. right. exact Hi'.
+Qed.
+
+Lemma lv_loop_safe n indptr indices (data ow_ iw_ sl_ : list Q) res tol :
+  csr_wf n indptr indices data -> length ow_ = n -> length iw_ = n -> length sl_ = n ->
+  forall fuel st increase passes, linv n st ->
+    lv_loop fuel n indptr indices data ow_ iw_ sl_ res tol st increase passes <> OOB.
+Proof.
+  intros Hwf How Hiw Hsl. induction fuel as [|f IH]; intros st increase passes Hinv; cbn [lv_loop];
+    [discriminate|].
+  destruct (lv_pass_ok n indptr indices data ow_ iw_ sl_ res Hwf How Hiw Hsl (seq 0 n)
+              {| l_labels := l_labels st; l_ocw := l_ocw st; l_icw := l_icw st; l_cw := l_cw st;
+                 l_inc := 0%Q |}) as (st' & H1 & Hinv').
+  { intros i Hi. apply in_seq in Hi. lia. }
+  { exact Hinv. }
+  rewrite H1. cbn [kbind]. destruct (Qlt_le_dec tol (l_inc st')); [apply IH; exact Hinv'|discriminate].
+Qed.
+
+(** optimize_core: no access out of bounds, for every fuel. Contract of the caller: labels are node
+    indices (< n), every per-node / per-cluster array has n entries. Termination is not covered here. *)
+Theorem optimize_core_safe_ok fuel n labels indices indptr
+        (data ow_ iw_ ocw icw cw sl_ : list Q) res tol :
+  csr_wf n indptr indices data -> length labels = n -> Forall (fun l => l < n) labels ->
+  length ow_ = n -> length iw_ = n -> length ocw = n -> length icw = n -> length cw = n ->
+  length sl_ = n ->
+  optimize_core fuel labels indices indptr data ow_ iw_ ocw icw cw sl_ res tol <> OOB.
+Proof.
+  intros Hwf HL HF How Hiw Hocw Hicw Hcw Hsl. unfold optimize_core. rewrite HL.
+  apply (lv_loop_safe n); auto. unfold linv; cbn [l_labels l_ocw l_icw l_cw]. auto.
 Qed.
